@@ -496,6 +496,13 @@ def toResourceName (name : Str) : Str :=
   else if hasPrefix name configmapURI || hasPrefix name kubernetesURI || hasPrefix name gatewayURI then name
   else kubernetesURI ++ name
 
+/-- `credentials.ToKubernetesGatewayResource`. -/
+def toKubernetesGatewayResource (ns name : Str) : Str :=
+  if hasPrefix name builtinURI then builtinURI else gatewayURI ++ ns ++ '/' :: name
+
+/-- `SecretResource.KubernetesResourceName`. -/
+def SR.kubernetesResourceName (r : SR) : Str := r.rtype.str ++ uriSep ++ r.ns ++ '/' :: r.name
+
 /-- A `networking.Server` as far as the reference computation reads it. -/
 structure GwServer where
   hasPort   : Bool
@@ -512,6 +519,8 @@ structure GwConfig where
   parentNsAnn : Str
   parentsAnn  : Str
   servers     : List GwServer
+  /-- `Gateway.selector` (`none`: no selector). -/
+  selector    : Option (List (Str × Str)) := none
   deriving DecidableEq, Repr
 
 /-- `gwKind == gvk.ListenerSet`. -/
@@ -574,6 +583,47 @@ def gatewayRefs (granted : Grants) (vid : Option Identity) (g : GwConfig) : List
 def verifiedRefs (granted : Grants) (vid : Option Identity) (gws : List GwConfig) : List Str :=
   gws.flatMap (gatewayRefs granted vid)
 
+/-- `PushContext.mergeGateways` attachment for selector-based Gateways (gateways are not scoped to the proxy's
+    namespace - the default): no selector applies to every gateway proxy, otherwise the selector must be a subset of
+    the proxy's labels. -/
+def attached (labels : List (Str × Str)) (g : GwConfig) : Bool :=
+  match g.selector with
+  | none => true
+  | some sel => sel.all fun kv => labels.contains kv
+
+/-- `DiscoveryServer.ClusterAliases`: the client-claimed `CLUSTER_ID` is rewritten in `initConnection`, before
+    authorisation and before any credentials controller is chosen. -/
+def resolveAlias (aliases : List (Str × Str)) (cid : Str) : Str :=
+  match aliases.find? (fun a => a.1 = cid) with
+  | some a => a.2
+  | none => cid
+
+/-! ### ListenerSet attachment (gatewaycommon.NamespaceAcceptedByAllowListeners) -/
+
+/-- `spec.allowedListeners` of the parent Gateway as the predicate reads it: absent, `namespaces` absent, or a
+    `from` value (`none` when unset or unknown... see `mode`) with an optional label selector (match labels). -/
+inductive ALMode
+  | absent | noNamespaces | all | same | none_ | selector | unset | bogus
+  deriving DecidableEq, Repr
+
+def nameLabel : Str := "kubernetes.io/metadata.name".toList
+
+/-- `toNamespaceSet`: the namespace's labels with the implicit name label forced to the namespace's name. -/
+def namespaceSet (name : Str) (labels : List (Str × Str)) : List (Str × Str) :=
+  (nameLabel, name) :: labels.filter (fun kv => kv.1 ≠ nameLabel)
+
+/-- `NamespaceAcceptedByAllowListeners(local, parent, lookup)`. `nsLabels = none`: the namespace object is not found. -/
+def nsAccepted (localNs parentNs : Str) (mode : ALMode) (sel : Option (List (Str × Str)))
+    (nsLabels : Option (List (Str × Str))) : Bool :=
+  match mode with
+  | .absent | .noNamespaces | .none_ | .bogus => false
+  | .all => true
+  | .same => localNs = parentNs
+  | .selector | .unset =>
+    match sel, nsLabels with
+    | some s, some l => s.all fun kv => (namespaceSet localNs l).contains kv
+    | _, _ => false
+
 /-! ### ReferenceGrant evaluation (pilot/pkg/config/kube/gatewaycommon/references.go) -/
 
 /-- One (from, to) pair of a gateway-api `ReferenceGrant` object as `ReferenceGrantsCollection` keeps it.
@@ -601,5 +651,79 @@ def grantEval (grants : List RefGrant) : Grants := fun ls rn ns =>
         (match g.name with
          | none => true
          | some n => n = p.name)
+
+/-! ### The SubjectAccessReview result cache (kube/secrets.go: authorizationCache, cachedAuthorization, insertCache) -/
+
+/-- One cached verdict: the user `(serviceAccount, namespace)`, the verdict, and the clock second at which it
+    expires. -/
+structure ACEntry where
+  sa      : Str
+  ns      : Str
+  verdict : Bool
+  exp     : Nat
+  deriving DecidableEq, Repr
+
+abbrev AuthCache := List ACEntry
+
+/-- `cacheTTL`: one minute for a refusal (or an API error), five minutes for a success. -/
+def authTTL (v : Bool) : Nat := if v then 300 else 60
+
+/-- `clearExpiredCache` at clock second `now`. -/
+def AuthCache.clear (now : Nat) (ac : AuthCache) : AuthCache := ac.filter (fun e => now < e.exp)
+
+def AuthCache.find (ac : AuthCache) (sa ns : Str) : Option ACEntry :=
+  List.find? (fun e => e.sa = sa && e.ns = ns) ac
+
+/-- `CredentialsController.Authorize` with its cache: expired entries are dropped, a hit answers from the cache,
+    a miss asks the API server (`truth`, false on an API error) and stores the answer. -/
+def authorizeCached (truth : Str → Str → Bool) (now : Nat) (ac : AuthCache) (sa ns : Str) : Bool × AuthCache :=
+  match (ac.clear now).find sa ns with
+  | some e => (e.verdict, ac.clear now)
+  | none => (truth sa ns, ⟨sa, ns, truth sa ns, now + authTTL (truth sa ns)⟩ :: ac.clear now)
+
+/-- `isAuthorized()` is evaluated lazily: only when some `kubernetes://` resource of the verified namespace is not
+    CA-only. -/
+def needsAuthz (id : Identity) (rs : List SR) : Bool :=
+  rs.any fun r => r.rtype = .kubernetes && r.ns = id.ns && !hasSuffix r.name cacertSuffix
+
+/-- The world in which cluster `cid` answers every review with `v`. -/
+def withVerdict (w : World) (cid : Str) (v : Bool) : World :=
+  { w with clusters := w.clusters.map fun c => if c.id = cid then { c with authz := fun _ _ => v } else c }
+
+/-- State threaded through a timed history: the xDS cache, the clock, one authorization cache per cluster. -/
+structure TState where
+  cache : Cache := []
+  now   : Nat := 0
+  acs   : List (Str × AuthCache) := []
+
+def TState.acOf (s : TState) (cid : Str) : AuthCache :=
+  match s.acs.find? (fun e => e.1 = cid) with
+  | some e => e.2
+  | none => []
+
+def TState.setAc (s : TState) (cid : Str) (ac : AuthCache) : TState :=
+  { s with acs := (cid, ac) :: s.acs.filter (fun e => e.1 ≠ cid) }
+
+/-- `SecretGen.Generate` with the authorization cache in the loop: the verdict used by the filter is the cached or
+    fresh answer of the proxy cluster's controller, obtained only if the filter needs it. -/
+def generateT (w : World) (s : TState) (p : Proxy) (names : List Str) (req : Option PushReq) :
+    Option GenOut × TState :=
+  let plain := generate w s.cache p names req
+  let fin := fun (o : Option GenOut) (s' : TState) =>
+    match o with
+    | some g => (o, { s' with cache := g.cache })
+    | none => (o, s')
+  match p.verified, req with
+  | some id, some rq =>
+    if !sdsNeedsPush rq then (none, s)
+    else
+      match w.forCluster p.cluster, w.forCluster w.configCluster with
+      | some pa, some _ =>
+        if needsAuthz id (parseResources names id.ns p.cluster w.configCluster) && pa.authOK then
+          let r := authorizeCached pa.auth.authz s.now (s.acOf p.cluster) id.sa id.ns
+          fin (generate (withVerdict w p.cluster r.1) s.cache p names req) (s.setAc p.cluster r.2)
+        else fin plain s
+      | _, _ => (none, s)
+  | _, _ => (none, s)
 
 end IstioModel.C11
